@@ -5,6 +5,7 @@ go 1.22
 require (
 	github.com/mit-pdos/go-journal v0.5.4
 	github.com/mit-pdos/go-nfsd v0.0.0
+	github.com/zeldovich/go-rpcgen v0.1.5
 )
 
 require (
@@ -13,7 +14,6 @@ require (
 	github.com/goose-lang/std v0.4.1 // indirect
 	github.com/rodaine/table v1.2.0 // indirect
 	github.com/tchajed/marshal v0.6.2 // indirect
-	github.com/zeldovich/go-rpcgen v0.1.5 // indirect
 	golang.org/x/sys v0.22.0 // indirect
 )
 
